@@ -451,11 +451,51 @@ fn main() {
         match item {
             SItem::Raw(t) => { o.push_str(t); o.push('\n'); }
             SItem::Type(t) => match emit_type(&mut ctx, &unit, t) { Ok(s) => { o.push_str(&format!("// ---- type {} from {}\n{}\n", t.name, t.file, s)); } Err(e) => ctx.problems.push(e) },
-            SItem::Const { file, name } => {
+            SItem::Const { file, name, ensures, props, line } => {
                 match ctx.file(file) {
                     Ok((_, f)) => {
+                        let f = f.clone();
                         let mut done = false;
-                        for it in &f.items { if let Item::Const(c) = it { if c.ident == name.as_str() { let mut c = c.clone(); c.attrs.clear(); c.vis = parse_quote!(pub); o.push_str(&format!("// ---- const {} from {}\n{}\n", name, file, ts(&c))); done = true; } } }
+                        for it in &f.items { if let Item::Const(c) = it { if c.ident == name.as_str() {
+                            let sp = c.span();
+                            let mut c = c.clone(); c.attrs.clear(); c.vis = parse_quote!(pub);
+                            done = true;
+                            if ensures.is_empty() && unit.strlit.is_none() {
+                                o.push_str(&format!("// ---- const {} from {}\n{}\n", name, file, ts(&c)));
+                                continue;
+                            }
+                            // R-CONST: type and initialiser go through the rule catalogue; with `@ensures` the item becomes
+                            // `exec const NAME: T ensures .. { INIT }` (elided reference lifetimes in T are 'static)
+                            let dummy = FnSpec::default();
+                            let mut n = Norm::new(&dummy, &unit, false, name);
+                            n.visit_type_mut(&mut c.ty);
+                            n.visit_expr_mut(&mut c.expr);
+                            for e in &n.errors { ctx.problems.push(format!("UNSUPPORTED {}", e)); }
+                            let start = o.lines().count() + 1;
+                            if ensures.is_empty() {
+                                o.push_str(&format!("// ---- const {} from {}\n{}\n", name, file, ts(&c)));
+                            } else {
+                                struct Stat;
+                                impl VisitMut for Stat {
+                                    fn visit_type_reference_mut(&mut self, r: &mut TypeReference) {
+                                        if r.lifetime.is_none() { r.lifetime = Some(parse_quote!('static)); }
+                                        syn::visit_mut::visit_type_reference_mut(self, r);
+                                    }
+                                }
+                                Stat.visit_type_mut(&mut c.ty);
+                                let mut fgr = Finger(String::new());
+                                fgr.visit_expr(&c.expr);
+                                let blk: Block = { let e = &c.expr; parse_quote!({ #e }) };
+                                o.push_str(&format!("// ---- const {} from {}:{}-{}\npub exec const {}: {}\n    ensures\n{}\n{}\n", name, file, sp.start().line, sp.end().line, name, ts(&c.ty), indent(ensures, 8), print_block(&blk)));
+                                n.bump("R-CONST");
+                                let end = o.lines().count();
+                                ctx.fns_meta.push(json!({
+                                    "name": name, "emit_name": name, "file": file, "src_lines": [sp.start().line, sp.end().line],
+                                    "rules": n.log, "shape": fgr.0, "fingerprint": fnv(&fgr.0), "loops": 0, "closures": 0, "anchors_used": [], "props": props,
+                                    "may_panic_asserts": [], "spec_line": line, "included": false, "gen_lines": [start, end],
+                                }));
+                            }
+                        } } }
                         if !done { ctx.problems.push(format!("LOST-ANCHOR const {} in {}", name, file)); }
                     }
                     Err(e) => ctx.problems.push(e),
